@@ -15,7 +15,7 @@
 
     The model mirrors the tree after b2d9318: [startPrint] is the first slot of the current save window whose
     row is not yet in phiDat.txt ([ti mod S + 1] at start-up, 1 after a save). *)
-From Coq Require Import List Arith Lia PeanoNat Bool Permutation.
+From Coq Require Import List Arith Lia PeanoNat Bool Permutation ZArith.
 Import ListNotations.
 
 Section Driver.
@@ -85,7 +85,8 @@ Definition ck_fresh (f0 : F) : ck_st :=
   let sl := ck_collect 0 f0 (fun _ => None) in
   ck_mk 0 f0 0 1 sl [(0, f0)] [sl 0].
 
-(** a restart from the checkpoint (k, f): ti = t // dt, collect, nothing saved or printed;
+(** a restart from the checkpoint (k, f): ti = nearest step of t ([ck_nearest_step]), collect, nothing saved
+    or printed;
     startPrint = ti % saveStep + 1 *)
 Definition ck_resume (k : nat) (f : F) : ck_st :=
   ck_mk k f 0 (k mod S + 1) (ck_collect k f (fun _ => None)) [] [].
@@ -903,11 +904,44 @@ Qed.
 
 End Driver.
 
-(** time stamps: the driver's t is k*dt (dt a positive integer: the collector indexes an array with
-    t // dt), a checkpoint is named after t, the restart computes ti = t // dt *)
+(** time stamps: the driver's t is k*dt, a checkpoint is named after t, the restart derives ti from t.
+    For an integer dt, t // dt is exact: *)
 Definition ck_ti_of_time (dt t : nat) : nat := t / dt.
 Lemma ck_ti_roundtrip dt k : 0 < dt -> ck_ti_of_time dt (k * dt) = k.
 Proof. intros H. unfold ck_ti_of_time. apply Nat.div_mul. lia. Qed.
+
+(** For a float dt the time of step k is accumulated (t += dt, k times) and differs from k*dt by rounding.
+    Since eb78f61 / 56219e6 the driver and the collector take the NEAREST step, int(t/dt + 0.5).  Times and
+    dt are binary64 numbers, i.e. integer multiples of a common unit (2^-1074): [t], [dt] below are those
+    integers, and floor(t/dt + 1/2) = (2t + dt) / (2dt) in integer division.  (The float evaluation of
+    t/dt + 0.5 carries a relative error of about 1e-16, far below the margin 1/2; the harness evaluates the
+    exact formula on the exact values of every restart time of the non-dyadic histories.) *)
+Definition ck_nearest_step (dt t : Z) : Z := ((2 * t + dt) / (2 * dt))%Z.
+Definition ck_floor_step (dt t : Z) : Z := (t / dt)%Z.
+
+(** nearest step of any time closer to k*dt than half a step is k ... *)
+Lemma ck_nearest_step_spec dt t k : (0 < dt)%Z -> (2 * Z.abs (t - k * dt) < dt)%Z -> ck_nearest_step dt t = k.
+Proof.
+  intros Hd Ht. unfold ck_nearest_step. symmetry.
+  apply (Z.div_unique_pos (2 * t + dt) (2 * dt) k (2 * (t - k * dt) + dt)); lia.
+Qed.
+
+Lemma ck_nearest_step_exact dt k : (0 < dt)%Z -> ck_nearest_step dt (k * dt) = k.
+Proof. intros Hd. apply ck_nearest_step_spec; [exact Hd|]. replace (k * dt - k * dt)%Z with 0%Z by lia. cbn. lia. Qed.
+
+(** ... whereas the floor t // dt of the pinned tree is one short as soon as the accumulated time is
+    below k*dt by any amount (dt = 0.1: 0.5 // 0.1 = 4) *)
+Lemma ck_floor_step_short dt t k : (0 < dt)%Z -> (k * dt - dt <= t < k * dt)%Z -> ck_floor_step dt t = (k - 1)%Z.
+Proof.
+  intros Hd Ht. unfold ck_floor_step. symmetry.
+  apply (Z.div_unique_pos t dt (k - 1) (t - (k - 1) * dt)); lia.
+Qed.
+
+(** binary64: 0.1 = 3602879701896397 / 2^55 and 0.5 = 2^54 / 2^55: 0.5 // 0.1 = 4, nearest step 5 *)
+Example ck_floor_vs_nearest_tenth :
+  ck_floor_step 3602879701896397 18014398509481984 = 4%Z /\
+  ck_nearest_step 3602879701896397 18014398509481984 = 5%Z.
+Proof. vm_compute. split; reflexivity. Qed.
 
 (** ** executable instance: the field is the number of steps applied to the initial one *)
 Definition ck_line_time (l : option (nat * nat)) : option nat :=
